@@ -886,6 +886,49 @@ func impureStringers(p *an.Prog, want func(*ssa.Function) bool) (out []string, n
 	return out, n
 }
 
+// loopDecodeReuse: encoding/json and encoding/gob leave what the input omits alone. A decode inside a loop into a
+// variable declared outside it therefore gives every element the members its predecessor had and it lacks (a batch
+// entry without "params" runs with the previous entry's params). Flagged: a Decode/Unmarshal call on a cycle whose
+// target is a local declared off that cycle and not re-assigned as a whole inside it.
+func loopDecodeReuse(p *an.Prog, want func(*ssa.Function) bool) (out []string, n int) {
+	for _, fn := range p.Repo {
+		if p.IsTestFunc(fn) || isTestDoublePkg(fn) || !want(fn) {
+			continue
+		}
+		for _, c := range an.Calls(fn, false) {
+			f := an.CallObj(c)
+			isDec := an.IsMethod(f, "encoding/json", "Decoder", "Decode") || an.IsFunc(f, "encoding/json", "Unmarshal") || an.IsMethod(f, "encoding/gob", "Decoder", "Decode")
+			in, ok := c.(ssa.Instruction)
+			if !isDec || !ok || !onCycle(in.Block()) {
+				continue
+			}
+			n++
+			args := c.Common().Args
+			t := args[len(args)-1]
+			if mi, ok := t.(*ssa.MakeInterface); ok {
+				t = mi.X
+			}
+			root, _ := an.RootPath(t)
+			al, ok := root.(*ssa.Alloc)
+			if !ok || al.Parent() != fn || onCycle(al.Block()) {
+				continue
+			}
+			// re-assigned as a whole inside the loop (x = T{}) before the decode?
+			reset := false
+			for _, ref := range *al.Referrers() {
+				if st, ok := ref.(*ssa.Store); ok && st.Addr == ssa.Value(al) && onCycle(st.Block()) {
+					reset = true
+				}
+			}
+			if reset {
+				continue
+			}
+			out = append(out, an.FuncName(fn)+" decodes inside a loop ("+p.Pos(c.Pos())+") into "+al.Comment+", declared outside it ("+p.Pos(al.Pos())+"): members an element omits keep the previous element's values")
+		}
+	}
+	return out, n
+}
+
 // RunGeneric evaluates the generic discipline rules for one property over its scope.
 func RunGeneric(prop string, p *an.Prog, r *an.Run) {
 	pk := genericScope[prop]
@@ -974,6 +1017,8 @@ func RunGeneric(prop string, p *an.Prog, r *an.Run) {
 	r.Check(len(pb) == 0, "param-backing-write", strings.Join(pk, ","), token.NoPos, "no helper filters its caller's slice in place while the caller still uses it", "%s", strings.Join(dedup(pb), "; "))
 	is, _ := impureStringers(p, scopeWant(pk))
 	r.Check(len(is) == 0, "pure-stringer", strings.Join(pk, ","), token.NoPos, "String/Error/Marshal methods do not write to their receiver", "%s", strings.Join(dedup(is), "; "))
+	ld, _ := loopDecodeReuse(p, scopeWant(pk))
+	r.Check(len(ld) == 0, "loop-decode-reuse", strings.Join(pk, ","), token.NoPos, "no decode in a loop reuses a target declared outside it", "%s", strings.Join(dedup(ld), "; "))
 	tc, _ := trimCutsetMisuse(p, scopeWant(pk))
 	r.Check(len(tc) == 0, "trim-cutset", strings.Join(pk, ","), token.NoPos, "no Trim/TrimLeft/TrimRight is given a word for a cutset", "%s", strings.Join(tc, "; "))
 	r.Check(len(ex) == 0, "loop-visits-all", strings.Join(pk, ","), token.NoPos, "effectful collection loops are left early only under a count bound", "%s", strings.Join(ex, "; "))
